@@ -11,6 +11,76 @@ def Good (e : Ep) (r : R) : Prop :=
 theorem sends_no_deliver (fl : List WRec) (p : Bytes) : Out.deliver p ∉ sends fl := by
   simp [sends]
 
+/-! frame lemmas of the record/flight builders (generated pattern) -/
+@[simp] theorem hsRecord_keys (c : Ctx) (raw : Bytes) (w : Bool) : (hsRecord c raw w).2.keys = c.keys := rfl
+@[simp] theorem emitMsg_keys (c : Ctx) (t : Nat) (b : Bytes) (w : Bool) : (emitMsg c t b w).2.keys = c.keys := rfl
+@[simp] theorem ccsRecord_keys (c : Ctx) : (ccsRecord c).2.keys = c.keys := rfl
+@[simp] theorem serverFinalFlight_keys (C : Crypto) (c : Ctx) (raw : Bytes) : (serverFinalFlight C c raw).2.keys = c.keys := rfl
+@[simp] theorem serverFlight_keys (L : Loc) (c : Ctx) : (serverFlight L c).2.keys = c.keys := rfl
+@[simp] theorem hsRecord_peerCert (c : Ctx) (raw : Bytes) (w : Bool) : (hsRecord c raw w).2.peerCert = c.peerCert := rfl
+@[simp] theorem emitMsg_peerCert (c : Ctx) (t : Nat) (b : Bytes) (w : Bool) : (emitMsg c t b w).2.peerCert = c.peerCert := rfl
+@[simp] theorem ccsRecord_peerCert (c : Ctx) : (ccsRecord c).2.peerCert = c.peerCert := rfl
+@[simp] theorem serverFinalFlight_peerCert (C : Crypto) (c : Ctx) (raw : Bytes) : (serverFinalFlight C c raw).2.peerCert = c.peerCert := rfl
+@[simp] theorem clientFinalFlight_peerCert (C : Crypto) (c : Ctx) (k : Keys) : (clientFinalFlight C c k).2.peerCert = c.peerCert := rfl
+@[simp] theorem serverFlight_peerCert (L : Loc) (c : Ctx) : (serverFlight L c).2.peerCert = c.peerCert := rfl
+@[simp] theorem hsRecord_skeVerified (c : Ctx) (raw : Bytes) (w : Bool) : (hsRecord c raw w).2.skeVerified = c.skeVerified := rfl
+@[simp] theorem emitMsg_skeVerified (c : Ctx) (t : Nat) (b : Bytes) (w : Bool) : (emitMsg c t b w).2.skeVerified = c.skeVerified := rfl
+@[simp] theorem ccsRecord_skeVerified (c : Ctx) : (ccsRecord c).2.skeVerified = c.skeVerified := rfl
+@[simp] theorem serverFinalFlight_skeVerified (C : Crypto) (c : Ctx) (raw : Bytes) : (serverFinalFlight C c raw).2.skeVerified = c.skeVerified := rfl
+@[simp] theorem clientFinalFlight_skeVerified (C : Crypto) (c : Ctx) (k : Keys) : (clientFinalFlight C c k).2.skeVerified = c.skeVerified := rfl
+@[simp] theorem serverFlight_skeVerified (L : Loc) (c : Ctx) : (serverFlight L c).2.skeVerified = c.skeVerified := rfl
+@[simp] theorem hsRecord_peerPub (c : Ctx) (raw : Bytes) (w : Bool) : (hsRecord c raw w).2.peerPub = c.peerPub := rfl
+@[simp] theorem emitMsg_peerPub (c : Ctx) (t : Nat) (b : Bytes) (w : Bool) : (emitMsg c t b w).2.peerPub = c.peerPub := rfl
+@[simp] theorem ccsRecord_peerPub (c : Ctx) : (ccsRecord c).2.peerPub = c.peerPub := rfl
+@[simp] theorem serverFinalFlight_peerPub (C : Crypto) (c : Ctx) (raw : Bytes) : (serverFinalFlight C c raw).2.peerPub = c.peerPub := rfl
+@[simp] theorem clientFinalFlight_peerPub (C : Crypto) (c : Ctx) (k : Keys) : (clientFinalFlight C c k).2.peerPub = c.peerPub := rfl
+@[simp] theorem serverFlight_peerPub (L : Loc) (c : Ctx) : (serverFlight L c).2.peerPub = c.peerPub := rfl
+@[simp] theorem hsRecord_clientRandom (c : Ctx) (raw : Bytes) (w : Bool) : (hsRecord c raw w).2.clientRandom = c.clientRandom := rfl
+@[simp] theorem emitMsg_clientRandom (c : Ctx) (t : Nat) (b : Bytes) (w : Bool) : (emitMsg c t b w).2.clientRandom = c.clientRandom := rfl
+@[simp] theorem ccsRecord_clientRandom (c : Ctx) : (ccsRecord c).2.clientRandom = c.clientRandom := rfl
+@[simp] theorem serverFinalFlight_clientRandom (C : Crypto) (c : Ctx) (raw : Bytes) : (serverFinalFlight C c raw).2.clientRandom = c.clientRandom := rfl
+@[simp] theorem clientFinalFlight_clientRandom (C : Crypto) (c : Ctx) (k : Keys) : (clientFinalFlight C c k).2.clientRandom = c.clientRandom := rfl
+@[simp] theorem serverFlight_clientRandom (L : Loc) (c : Ctx) : (serverFlight L c).2.clientRandom = c.clientRandom := rfl
+@[simp] theorem hsRecord_serverRandom (c : Ctx) (raw : Bytes) (w : Bool) : (hsRecord c raw w).2.serverRandom = c.serverRandom := rfl
+@[simp] theorem emitMsg_serverRandom (c : Ctx) (t : Nat) (b : Bytes) (w : Bool) : (emitMsg c t b w).2.serverRandom = c.serverRandom := rfl
+@[simp] theorem ccsRecord_serverRandom (c : Ctx) : (ccsRecord c).2.serverRandom = c.serverRandom := rfl
+@[simp] theorem serverFinalFlight_serverRandom (C : Crypto) (c : Ctx) (raw : Bytes) : (serverFinalFlight C c raw).2.serverRandom = c.serverRandom := rfl
+@[simp] theorem clientFinalFlight_serverRandom (C : Crypto) (c : Ctx) (k : Keys) : (clientFinalFlight C c k).2.serverRandom = c.serverRandom := rfl
+@[simp] theorem serverFlight_serverRandom (L : Loc) (c : Ctx) : (serverFlight L c).2.serverRandom = c.serverRandom := rfl
+@[simp] theorem hsRecord_expectedFp (c : Ctx) (raw : Bytes) (w : Bool) : (hsRecord c raw w).2.expectedFp = c.expectedFp := rfl
+@[simp] theorem emitMsg_expectedFp (c : Ctx) (t : Nat) (b : Bytes) (w : Bool) : (emitMsg c t b w).2.expectedFp = c.expectedFp := rfl
+@[simp] theorem ccsRecord_expectedFp (c : Ctx) : (ccsRecord c).2.expectedFp = c.expectedFp := rfl
+@[simp] theorem serverFinalFlight_expectedFp (C : Crypto) (c : Ctx) (raw : Bytes) : (serverFinalFlight C c raw).2.expectedFp = c.expectedFp := rfl
+@[simp] theorem clientFinalFlight_expectedFp (C : Crypto) (c : Ctx) (k : Keys) : (clientFinalFlight C c k).2.expectedFp = c.expectedFp := rfl
+@[simp] theorem serverFlight_expectedFp (L : Loc) (c : Ctx) : (serverFlight L c).2.expectedFp = c.expectedFp := rfl
+@[simp] theorem hsRecord_ems (c : Ctx) (raw : Bytes) (w : Bool) : (hsRecord c raw w).2.ems = c.ems := rfl
+@[simp] theorem emitMsg_ems (c : Ctx) (t : Nat) (b : Bytes) (w : Bool) : (emitMsg c t b w).2.ems = c.ems := rfl
+@[simp] theorem ccsRecord_ems (c : Ctx) : (ccsRecord c).2.ems = c.ems := rfl
+@[simp] theorem serverFinalFlight_ems (C : Crypto) (c : Ctx) (raw : Bytes) : (serverFinalFlight C c raw).2.ems = c.ems := rfl
+@[simp] theorem clientFinalFlight_ems (C : Crypto) (c : Ctx) (k : Keys) : (clientFinalFlight C c k).2.ems = c.ems := rfl
+@[simp] theorem serverFlight_ems (L : Loc) (c : Ctx) : (serverFlight L c).2.ems = c.ems := rfl
+@[simp] theorem hsRecord_srtp (c : Ctx) (raw : Bytes) (w : Bool) : (hsRecord c raw w).2.srtp = c.srtp := rfl
+@[simp] theorem emitMsg_srtp (c : Ctx) (t : Nat) (b : Bytes) (w : Bool) : (emitMsg c t b w).2.srtp = c.srtp := rfl
+@[simp] theorem ccsRecord_srtp (c : Ctx) : (ccsRecord c).2.srtp = c.srtp := rfl
+@[simp] theorem serverFinalFlight_srtp (C : Crypto) (c : Ctx) (raw : Bytes) : (serverFinalFlight C c raw).2.srtp = c.srtp := rfl
+@[simp] theorem clientFinalFlight_srtp (C : Crypto) (c : Ctx) (k : Keys) : (clientFinalFlight C c k).2.srtp = c.srtp := rfl
+@[simp] theorem serverFlight_srtp (L : Loc) (c : Ctx) : (serverFlight L c).2.srtp = c.srtp := rfl
+@[simp] theorem hsRecord_localSecret (c : Ctx) (raw : Bytes) (w : Bool) : (hsRecord c raw w).2.localSecret = c.localSecret := rfl
+@[simp] theorem emitMsg_localSecret (c : Ctx) (t : Nat) (b : Bytes) (w : Bool) : (emitMsg c t b w).2.localSecret = c.localSecret := rfl
+@[simp] theorem ccsRecord_localSecret (c : Ctx) : (ccsRecord c).2.localSecret = c.localSecret := rfl
+@[simp] theorem serverFinalFlight_localSecret (C : Crypto) (c : Ctx) (raw : Bytes) : (serverFinalFlight C c raw).2.localSecret = c.localSecret := rfl
+@[simp] theorem clientFinalFlight_localSecret (C : Crypto) (c : Ctx) (k : Keys) : (clientFinalFlight C c k).2.localSecret = c.localSecret := rfl
+@[simp] theorem serverFlight_localSecret (L : Loc) (c : Ctx) : (serverFlight L c).2.localSecret = c.localSecret := rfl
+@[simp] theorem clientFinalFlight_keys (C : Crypto) (c : Ctx) (k : Keys) : (clientFinalFlight C c k).2.keys = some k := rfl
+@[simp] theorem withCtx_connKeys (e : Ep) (c : Ctx) : (withCtx e c).connKeys = e.connKeys := rfl
+@[simp] theorem withCtx_evs (e : Ep) (c : Ctx) : (withCtx e c).evs = e.evs := rfl
+@[simp] theorem withCtx_writeEpoch (e : Ep) (c : Ctx) : (withCtx e c).writeEpoch = e.writeEpoch := rfl
+@[simp] theorem withCtx_alive (e : Ep) (c : Ctx) : (withCtx e c).alive = e.alive := rfl
+
+@[simp] theorem withCtx_isClient (e : Ep) (c : Ctx) : (withCtx e c).isClient = e.isClient := rfl
+@[simp] theorem withCtx_conn (e : Ep) (c : Ctx) : (withCtx e c).conn = e.conn := rfl
+@[simp] theorem withCtx_ctx (e : Ep) (c : Ctx) : (withCtx e c).ctx = c := rfl
+
 syntax "hs_good" : tactic
 macro_rules
   | `(tactic| hs_good) => `(tactic|
@@ -83,9 +153,6 @@ theorem Good.seq {e : Ep} {r1 r2 : R} {b : Bool} (h1 : Good e r1) (h2 : Good r1.
   unfold bufferFrag; dsimp only; split <;> rfl
 @[simp] theorem noteMsg_keys (c : Ctx) (t : Nat) (raw : Bytes) : (noteMsg c t raw).keys = c.keys := rfl
 @[simp] theorem takeBuffer_keys (c : Ctx) : (takeBuffer c).keys = c.keys := rfl
-@[simp] theorem withCtx_isClient (e : Ep) (c : Ctx) : (withCtx e c).isClient = e.isClient := rfl
-@[simp] theorem withCtx_conn (e : Ep) (c : Ctx) : (withCtx e c).conn = e.conn := rfl
-@[simp] theorem withCtx_ctx (e : Ep) (c : Ctx) : (withCtx e c).ctx = c := rfl
 @[simp] theorem resync_isClient (e : Ep) (m : HsMsg) : (resync e m).isClient = e.isClient := rfl
 @[simp] theorem resync_conn (e : Ep) (m : HsMsg) : (resync e m).conn = e.conn := rfl
 @[simp] theorem resync_keys (e : Ep) (m : HsMsg) : (resync e m).ctx.keys = e.ctx.keys := rfl
